@@ -463,6 +463,69 @@ impl Solver {
         }
     }
 
+    /// Solve the queries that are not cached yet, `threads` at a time, and store the answers.
+    pub fn prefetch(&mut self, todo: Vec<(Query, u64)>, threads: usize) {
+        let mut fresh: Vec<(u64, Query, u64)> = vec![];
+        for (q, cap) in todo {
+            if q.unsupported.is_some() || cap == 0 {
+                continue;
+            }
+            let key = h64(&q.text);
+            if fresh.iter().any(|f| f.0 == key) || self.cache_get(key, &q.text).is_some() {
+                continue;
+            }
+            if let Some(c) = self.gave_up.get(&key) {
+                if *c >= cap {
+                    continue;
+                }
+            }
+            fresh.push((key, q, cap));
+        }
+        if fresh.len() < 2 || threads < 2 {
+            return;
+        }
+        let results: Vec<(Verdict, f64)> = {
+            let chunks: Vec<&[(u64, Query, u64)]> = fresh.chunks((fresh.len() + threads - 1) / threads).collect();
+            let mut out: Vec<Vec<(Verdict, f64)>> = vec![];
+            std::thread::scope(|sc| {
+                let hs: Vec<_> = chunks
+                    .iter()
+                    .map(|ch| {
+                        sc.spawn(move || {
+                            ch.iter()
+                                .map(|(_, q, cap)| {
+                                    let t0 = Instant::now();
+                                    let v = run_cvc5(&q.text, q.vars.len(), *cap);
+                                    (v, t0.elapsed().as_secs_f64())
+                                })
+                                .collect::<Vec<_>>()
+                        })
+                    })
+                    .collect();
+                for h in hs {
+                    out.push(h.join().unwrap());
+                }
+            });
+            out.into_iter().flatten().collect()
+        };
+        for ((key, q, cap), (v, dt)) in fresh.iter().zip(results) {
+            self.stats.queries += 1;
+            self.stats.time_s += dt;
+            if dt > self.stats.max_time_s {
+                self.stats.max_time_s = dt;
+            }
+            match &v {
+                Verdict::Unsat => self.stats.unsat += 1,
+                Verdict::Sat(_) => self.stats.sat += 1,
+                Verdict::Unknown(_) => {
+                    self.stats.unknown += 1;
+                    self.gave_up.insert(*key, *cap);
+                }
+            }
+            self.cache_put(*key, &q.text, &v);
+        }
+    }
+
     /// Decide satisfiability of the query; `Unknown` covers time-outs, errors and unsupported operations.
     pub fn check(&mut self, q: &Query) -> (Verdict, f64, bool) {
         if let Some(u) = &q.unsupported {
